@@ -63,6 +63,11 @@ def emulsion_specs(draw):
         quad = [(p0, R), (p0 - u * (R + eps + gap), eps), (pm, rm), (pm + u * (rm + eps + gap), eps)]
         order = draw(st.permutations(range(4)))
         drops = [{"position": [gen.r6(float(x)) for x in quad[i][0]], "radius": gen.r6(float(quad[i][1]))} for i in order]
+    if not use_grid and drops and draw(st.integers(0, 4)) == 0:
+        # the whole emulsion far away from the origin: coordinates much larger than the separations (differences of the
+        # coordinates are still exact to ~1e-16 x |coordinate|, which is what the tolerances below are scaled with)
+        far = [float(draw(st.sampled_from([-1.0, 1.0])) * 10.0 ** draw(st.integers(5, 8)) * max(L)) for _ in range(dim)]
+        drops = [{"position": [float(x + f) for x, f in zip(d["position"], far)], "radius": d["radius"]} for d in drops]
     spec = {"kind": "emulsion", "dim": dim, "cls": cls, "droplets": drops, "min_distance": md}
     if use_grid:
         spec["grid"] = {"origin": origin, "shape": [4] * dim, "spacing": [l / 4 for l in L], "periodic": periodic}
